@@ -28,6 +28,8 @@ func replayObligation(prog *Prog, fr *FuncResult, o *Obligation, prop, path stri
 		var extra map[string]any
 		if fr.Lemma != nil {
 			v, extra = tryReplayLemma(prog, fr, o, timeoutS)
+		} else if tv, te, ok := tryObligationTemplate(fr, o); ok {
+			v, extra = tv, te
 		} else if tv, te, ok := tryTemplateReplay(fr); ok {
 			v, extra = tv, te
 		} else {
@@ -75,6 +77,28 @@ func tryTemplateReplay(fr *FuncResult) (string, map[string]any, bool) {
 	}
 	extra["real_output"] = strings.Join(outs, "\n")
 	extra["replay_note"] = "the fault-enumeration harness (every statement position failing in turn, dummy arguments) found no violation on the real code"
+	return "", extra, true
+}
+
+// tryObligationTemplate: a harness written for one named obligation (used where the counterexample is a scenario -
+// fake store objects, sessions, a request - rather than plain argument values).
+func tryObligationTemplate(fr *FuncResult, o *Obligation) (string, map[string]any, bool) {
+	if fr.VC == nil || fr.VC.fn == nil || fr.VC.fn.Pkg == nil {
+		return "", nil, false
+	}
+	name := strings.ReplaceAll(o.Name, "#", "_")
+	name = strings.ReplaceAll(name, ":", "_")
+	data, err := os.ReadFile(filepath.Join(verifRoot, "replay_templates", name+".go.tmpl"))
+	if err != nil {
+		return "", nil, false
+	}
+	pkgDir := strings.TrimPrefix(fr.VC.fn.Pkg.Pkg.Path(), repoModule+"/")
+	out, _ := runGoTest(pkgDir, string(data), "TestVerifReplay", "verif")
+	extra := map[string]any{"package_dir": pkgDir, "test_name": "TestVerifReplay", "build_tags": "verif", "go_test": string(data), "real_output": lastLines(out, 12)}
+	if strings.Contains(out, "VERIF-REPLAY violation") {
+		return "reproduced", extra, true
+	}
+	extra["replay_note"] = "the scenario harness for this obligation does not violate it on the real code"
 	return "", extra, true
 }
 
